@@ -110,8 +110,17 @@ func (m *coreModel) inline(caller, callee *ssa.Function) bool {
 	if pkgOf(callee) == nil || m.top == nil || pkgOf(callee) != m.top.Pkg {
 		return false
 	}
-	if callee.Signature.Recv() != nil && !m.w.isCompilerMethod(callee) {
-		return false
+	if rc := callee.Signature.Recv(); rc != nil && !m.w.isCompilerMethod(callee) {
+		// a method of another type of the package: only of an unexported one (userFunction, the exit
+		// objects), and not one with a loop over foreign data that would blow the paths up
+		t := rc.Type()
+		if pt, ok := t.(*types.Pointer); ok {
+			t = pt.Elem()
+		}
+		nt, ok := t.(*types.Named)
+		if !ok || nt.Obj().Exported() {
+			return false
+		}
 	}
 	if m.canonicalSet()[callee] {
 		return false
